@@ -383,11 +383,17 @@ func attSession(d consts.ActiveSafetyType, name string, data []byte, chunk int) 
 func init() {
 	vc.Register(&vc.Check{
 		ID: "C10", Level: "model_checking", SingleProc: true,
-		Rule: "JT808 server: a well-behaved session V (register, auth, heartbeat, location, each awaited), a hostile client H and a third client opened after H, on the real server with README-pattern handlers that Parse and render every body. H plays every single piece of a ~900-piece menu (valid frames with lying package fields, every supported terminal and platform ID x both versions with empty / 1-byte / truncated / corrupted / extended bodies, the boundary bodies C03 found, half frames, bare delimiters, 2 KiB without delimiter, unknown IDs) with close or reset before, between and after its chunks, under ALL schedules with <=1 deviation (thorough 2), every ordered pair from a 40-piece sub-menu under the run-to-block schedule (thorough: with 1 deviation), " +
+		Rule: "JT808 server: a well-behaved session V (register, auth, heartbeat, location, each awaited), a hostile client H and a third client opened after H, on the real server with README-pattern handlers that Parse and render every body. H plays every single piece of a ~900-piece menu (valid frames with lying package fields, every supported terminal and platform ID x both versions with empty / 1-byte / truncated / corrupted / extended bodies, the boundary bodies C03 found, half frames, bare delimiters, 2 KiB without delimiter, unknown IDs) with close or reset before, between and after its chunks, under ALL schedules with <=1 deviation (thorough 2), every ordered pair from a 40-piece sub-menu under the run-to-block schedule (thorough: with 1 deviation), every ordered pair of sub-package frames of one message ID whose total/number fields disagree (totals and numbers from {1,2,5,65535} / {1,2,4,65535}) through the server, and EVERY sequence of 1..2 (one ID: 1..3; thorough: 1..3 for both) sub-package frames over 2 IDs x totals {0,1,2,3,5,65535} x numbers {0..6,65535} on the real reassembler, " +
 			"plus H presenting V's key. Attachment server: connection.run on scripted connections: every prefix (EOF and reset at every chunk boundary, including connect-and-close) of well-formed sessions of all five dialects, control frames and chunk headers with adversarial names / offsets / lengths, default and custom file handler. Oracle: no panic anywhere, V receives exactly its reference replies, the later client is served. Non-trivial = H sends at least one chunk",
 		Assumptions: []string{"memory exhaustion by an endless delimiter-free stream is a resource bound, not a reachable-state property, and is not claimed"},
 		Run:         c10Run,
 		Drivers: map[string]func(json.RawMessage) string{
+			"fragseq": func(raw json.RawMessage) string {
+				var c fragSeqCase
+				_ = json.Unmarshal(raw, &c)
+				_, d := fragSeqEval(c)
+				return d
+			},
 			"host": func(raw json.RawMessage) string {
 				var c hostCase
 				if err := json.Unmarshal(raw, &c); err != nil {
@@ -486,10 +492,109 @@ func c10Run(ctx *vc.Ctx, rep *vc.Report) {
 			runHost(hostScn{Name: "host:2:" + a + "+" + b, Pieces: []string{pieces[a], pieces[b]}, CloseAt: 2}, pairBound)
 		}
 	}
+	// package fields that disagree between the frames of one "transfer": every ordered pair over total x number, through the server
+	fx := fragxPieces(hostilePhone, []uint16{1, 2, 5, 65535}, []uint16{1, 2, 4, 65535})
+	fxNames := sortedKeys(fx)
+	for _, a := range fxNames {
+		for _, b := range fxNames {
+			if ctx.Expired() || rep.TooMany() {
+				rep.Truncated = rep.Truncated || ctx.Expired()
+				return
+			}
+			runHost(hostScn{Name: "host:fragx:" + a + "+" + b, Pieces: []string{fx[a], fx[b]}, CloseAt: 2}, pairBound)
+		}
+	}
+	// ... and every sequence of 1..3 such frames (two message IDs, totals {0,1,2,3,5,65535}, numbers {0..6,65535}) on the real reassembler
+	c10FragSeqs(ctx, rep, &idx)
 	rep.Count("hostile_pieces", int64(len(names)))
 	rep.Count("pair_menu", int64(len(sub)))
 	// attachment server
 	c10Attachment(ctx, rep, &idx)
+}
+
+// fragxPieces: sub-package frames of message 0x0801 for every (total, number) of the given menus.
+func fragxPieces(phone string, totals, numbers []uint16) map[string]string {
+	m := map[string]string{}
+	for _, t := range totals {
+		for _, n := range numbers {
+			h := ref.TermHeader(0x0801, false, phone, 40+t%7*8+n%8)
+			h.Fragmented, h.Total, h.Number = true, t, n
+			m[fmt.Sprintf("t%d-n%d", t, n)] = hx2(ref.Encode(h, []byte{byte(t), byte(n), 0x7E}))
+		}
+	}
+	return m
+}
+
+type fragSeqCase struct {
+	Frames []string `json:"frames_hex"`
+}
+
+func fragSeqEval(c fragSeqCase) (sig, diag string) {
+	ps := service.VerifNewParser()
+	for i, f := range c.Frames {
+		if p := vc.Catch(func() { _, _ = ps.Parse(exact(unhx(f))) }); p != "" {
+			return "reassembler-panic:" + vc.PanicSite(p) + ":" + vc.PanicClass(p),
+				fmt.Sprintf("frame %d of %v makes the connection's reader panic (no recover: the server process dies): %s", i, c.Frames, p)
+		}
+	}
+	return "", ""
+}
+
+func c10FragSeqs(ctx *vc.Ctx, rep *vc.Report, idx *int64) {
+	var alpha []string
+	for _, id := range []uint16{0x0801, 0x0704} {
+		for _, t := range []uint16{0, 1, 2, 3, 5, 65535} {
+			for _, n := range []uint16{0, 1, 2, 3, 4, 5, 6, 65535} {
+				h := ref.TermHeader(id, false, hostilePhone, t*8+n)
+				h.Fragmented, h.Total, h.Number = true, t, n
+				alpha = append(alpha, hx2(ref.Encode(h, []byte{byte(t), byte(n)})))
+			}
+		}
+	}
+	depth := 2
+	if ctx.Thorough() {
+		depth = 3
+	}
+	// depth 3 in the quick tier on the alphabet of one message ID (the second ID adds nothing to a single transfer)
+	one := alpha[:len(alpha)/2]
+	try := func(fs ...string) {
+		*idx++
+		if !ctx.Mine(*idx) {
+			return
+		}
+		c := fragSeqCase{Frames: fs}
+		sig, diag := fragSeqEval(c)
+		rep.Evaluations++
+		rep.Nontrivial++
+		rep.Transitions += int64(len(fs))
+		if sig != "" {
+			rep.Outcome("fail:" + sig)
+			rep.Add(sig, diag, "fragseq", c)
+		} else {
+			rep.Outcome("fragseq-ok")
+		}
+	}
+	for _, a := range alpha {
+		try(a)
+		for _, b := range alpha {
+			try(a, b)
+			if depth >= 3 {
+				for _, c := range alpha {
+					try(a, b, c)
+				}
+			}
+		}
+	}
+	if depth < 3 {
+		for _, a := range one {
+			for _, b := range one {
+				for _, c := range one {
+					try(a, b, c)
+				}
+			}
+		}
+	}
+	rep.Count("fragment_alphabet", int64(len(alpha)))
 }
 
 func c10Attachment(ctx *vc.Ctx, rep *vc.Report, idx *int64) {
